@@ -86,6 +86,7 @@ type network struct {
 	packets   map[int]*PacketConn
 	nextPort  int
 	connSeq   map[int]int
+	conns     []*conn // every stream connection created since the last Reset (both ends)
 }
 
 var netw = &network{listeners: map[int]*listener{}, packets: map[int]*PacketConn{}, nextPort: 20000, connSeq: map[int]int{}}
@@ -230,7 +231,40 @@ func DialContext(ctx context.Context, network, addr string) (net.Conn, error) {
 	l.cond.Broadcast()
 	l.mu.Unlock()
 	Stats.Conns.Add(1)
+	netw.mu.Lock()
+	netw.conns = append(netw.conns, client, server)
+	netw.mu.Unlock()
 	return client, nil
+}
+
+// CloseAll closes every connection, listener and datagram socket that was
+// created since the last Reset: "the machines are switched off". A harness
+// calls it at the end of a run so that goroutines of the protocol stacks that
+// are still parked in a Read (idle keep-alive connections of transports that
+// nobody closes because a real process would simply exit) end, instead of
+// outliving the run.
+func CloseAll() {
+	netw.mu.Lock()
+	conns := netw.conns
+	netw.conns = nil
+	var ls []*listener
+	for _, l := range netw.listeners {
+		ls = append(ls, l)
+	}
+	var ps []*PacketConn
+	for _, p := range netw.packets {
+		ps = append(ps, p)
+	}
+	netw.mu.Unlock()
+	for _, c := range conns {
+		_ = c.Close()
+	}
+	for _, l := range ls {
+		_ = l.Close()
+	}
+	for _, p := range ps {
+		_ = p.Close()
+	}
 }
 
 type segment struct {
@@ -602,4 +636,5 @@ func Reset() {
 	netw.packets = map[int]*PacketConn{}
 	netw.connSeq = map[int]int{}
 	netw.nextPort = 20000
+	netw.conns = nil
 }
